@@ -557,8 +557,13 @@ def retention_case():
 
 
 def bounded(tier, seed):
+    import gc
     with address_space_cap():
-        return bounded_(tier, seed)
+        r = bounded_(tier, seed)
+    if r[1] is None and not gc.isenabled():
+        gc.enable()
+        return r[0] + 1, 'after the decoded and rejected messages of this run the cyclic garbage collector of the process is switched off: a rejected message cost more than its own connection', {'case': 'process state'}
+    return r
 
 
 def bounded_(tier, seed):
